@@ -206,33 +206,61 @@ func (f *fixture) call(r indexheader.Reader, method, arg int) (a answer, err err
 	return a, err
 }
 
-// classify a lookup on the lazy reader against the always-loaded reader.
-func (f *fixture) lookup(r indexheader.Reader, method, arg int, failLoad bool) (class string) {
+// pending is a Reader-method call that has returned; its answer is read
+// (compared with the always-loaded reader's) only later, after the lazy reader
+// has been unloaded again: an answer must not depend on the header staying mapped.
+type pending struct {
+	method, arg int
+	got         answer
+	err         error
+	panicked    bool
+}
+
+func notePanic(method, arg int, p any) {
+	panicMu.Lock()
+	if lastPanic == "" {
+		lastPanic = fmt.Sprintf("method %d arg %d: %v\n%s", method, arg, p, debug.Stack())
+	}
+	panicMu.Unlock()
+}
+
+func (f *fixture) callLazy(r indexheader.Reader, method, arg int) (p pending) {
+	p.method, p.arg = method, arg
 	defer func() {
-		if p := recover(); p != nil {
-			class = "KPanic"
-			panicMu.Lock()
-			if lastPanic == "" {
-				lastPanic = fmt.Sprintf("method %d arg %d: %v\n%s", method, arg, p, debug.Stack())
-			}
-			panicMu.Unlock()
+		if x := recover(); x != nil {
+			p.panicked = true
+			notePanic(method, arg, x)
 		}
 	}()
-	got, err := f.call(r, method, arg)
-	if indexheader.VerifC16ErrClass(err) == "unloaded" {
+	p.got, p.err = f.call(r, method, arg)
+	return p
+}
+
+// classify reads the answer and compares it with the always-loaded reader's.
+func (f *fixture) classify(p pending, failLoad bool) (class string) {
+	defer func() {
+		if x := recover(); x != nil {
+			class = "KPanic"
+			notePanic(p.method, p.arg, x)
+		}
+	}()
+	if p.panicked {
+		return "KPanic"
+	}
+	if indexheader.VerifC16ErrClass(p.err) == "unloaded" {
 		return "KUnloaded"
 	}
 	if failLoad {
-		if err != nil {
+		if p.err != nil {
 			return "KLoadErr"
 		}
 		return "KDiff"
 	}
-	want, _ := f.call(f.always, method, arg)
-	if got.Err == want.Err && (got.Err != "" || reflect.DeepEqual(got.Val, want.Val)) {
+	want, _ := f.call(f.always, p.method, p.arg)
+	if p.got.Err == want.Err && (p.got.Err != "" || reflect.DeepEqual(p.got.Val, want.Val)) {
 		return "KOk"
 	}
-	if err != nil && want.Err == "" {
+	if p.err != nil && want.Err == "" {
 		return "KOther"
 	}
 	return "KDiff"
@@ -299,6 +327,7 @@ type seqObs struct {
 }
 
 func runSeq(f *fixture, in input) (common.Case, error) {
+	debug.SetPanicOnFault(true)
 	c := common.Case{Class: "seq"}
 	if in.FailLoad {
 		c.Class = "seq-failload"
@@ -308,62 +337,82 @@ func runSeq(f *fixture, in input) (common.Case, error) {
 	if err != nil {
 		return c, err
 	}
-	defer r.Close()
 	u0 := indexheader.VerifC16UsedAt(r)
-	var terms []string
-	var obs []seqObs
-	notIdle, reloads := 0, 0
+	type rec struct {
+		opTerm string
+		used   int64
+		pend   *pending
+		res    string
+		loaded bool
+		failed bool
+		cs     counters
+		o      sop
+		ts     int64
+	}
+	var recs []rec
 	for _, o := range in.Ops {
 		ts := o.Ts
 		if o.TsMode == "rel" {
 			ts = indexheader.VerifC16UsedAt(r) + o.Ts
 		}
-		var opTerm, res string
+		rc := rec{o: o, ts: ts}
 		switch o.Kind {
 		case "lookup":
-			res = f.lookup(r, o.Method, o.Arg, in.FailLoad)
-			opTerm = "OLookup"
+			p := f.callLazy(r, o.Method, o.Arg)
+			rc.pend = &p
+			rc.opTerm = "OLookup"
 		case "unload":
 			if o.TsMode == "abs" && ts == 0 {
-				res = unloadClass(r.Close())
+				rc.res = unloadClass(r.Close())
 			} else {
-				res = unloadClass(indexheader.VerifC16UnloadIfIdleSince(r, ts))
+				rc.res = unloadClass(indexheader.VerifC16UnloadIfIdleSince(r, ts))
 			}
-			opTerm = common.App("OUnload", common.Z(ts))
+			rc.opTerm = common.App("OUnload", common.Z(ts))
 		case "idle":
 			if indexheader.VerifC16IsIdleSince(r, ts) {
-				res = "KTrue"
+				rc.res = "KTrue"
 			} else {
-				res = "KFalse"
+				rc.res = "KFalse"
 			}
-			opTerm = common.App("OIsIdle", common.Z(ts))
+			rc.opTerm = common.App("OIsIdle", common.Z(ts))
 		case "sweep":
 			// the body of ReaderPool.closeIdleReaders for this one reader
 			if indexheader.VerifC16IsIdleSince(r, ts) {
-				res = unloadClass(indexheader.VerifC16UnloadIfIdleSince(r, ts))
+				rc.res = unloadClass(indexheader.VerifC16UnloadIfIdleSince(r, ts))
 			} else {
-				res = "KFalse"
+				rc.res = "KFalse"
 			}
-			opTerm = common.App("OSweep", common.Z(ts))
+			rc.opTerm = common.App("OSweep", common.Z(ts))
 		default:
 			return c, fmt.Errorf("bad op kind %q", o.Kind)
 		}
-		loaded, failed := indexheader.VerifC16Loaded(r)
-		used := indexheader.VerifC16UsedAt(r)
-		cs := readCounters(reg)
-		terms = append(terms, common.Tuple(opTerm, common.Z(used),
-			common.App("mkO", res, common.Bool(loaded), common.Bool(failed), common.Z(used),
-				common.N(cs.loads), common.N(cs.loadfails), common.N(cs.unloads), common.N(cs.unloadfails))))
-		obs = append(obs, seqObs{Op: o.Kind, Ts: ts, Res: res, Loaded: loaded, Failed: failed, Loads: cs.loads, Unl: cs.unloads})
-		if res == "KNotIdle" {
+		rc.loaded, rc.failed = indexheader.VerifC16Loaded(r)
+		rc.used = indexheader.VerifC16UsedAt(r)
+		rc.cs = readCounters(reg)
+		recs = append(recs, rc)
+	}
+	// unload, and only now read the answers
+	_ = r.Close()
+	var terms []string
+	var obs []seqObs
+	notIdle, reloads := 0, 0
+	for _, rc := range recs {
+		if rc.pend != nil {
+			rc.res = f.classify(*rc.pend, in.FailLoad)
+		}
+		terms = append(terms, common.Tuple(rc.opTerm, common.Z(rc.used),
+			common.App("mkO", rc.res, common.Bool(rc.loaded), common.Bool(rc.failed), common.Z(rc.used),
+				common.N(rc.cs.loads), common.N(rc.cs.loadfails), common.N(rc.cs.unloads), common.N(rc.cs.unloadfails))))
+		obs = append(obs, seqObs{Op: rc.o.Kind, Ts: rc.ts, Res: rc.res, Loaded: rc.loaded, Failed: rc.failed, Loads: rc.cs.loads, Unl: rc.cs.unloads})
+		if rc.res == "KNotIdle" {
 			notIdle++
 		}
-		if cs.loads >= 2 {
+		if rc.cs.loads >= 2 {
 			reloads = 1
 		}
-		if o.Kind == "lookup" && res != "KOk" && res != "KLoadErr" && res != "KUnloaded" {
-			c.GoPred = fmt.Sprintf("sequential lookup (method %d arg %d) answered %s", o.Method, o.Arg, res)
-			c.Sig = "seq-lookup-" + res
+		if rc.o.Kind == "lookup" && rc.res != "KOk" && rc.res != "KLoadErr" && rc.res != "KUnloaded" {
+			c.GoPred = fmt.Sprintf("lookup (method %d arg %d) answered %s when its answer was read after the header had been unloaded", rc.o.Method, rc.o.Arg, rc.res)
+			c.Sig = "seq-lookup-" + rc.res
 		}
 	}
 	c.Coq = common.App("CSeq", common.Z(u0), common.Bool(!in.FailLoad), common.List(terms))
@@ -424,6 +473,7 @@ func runConc(f *fixture, in input) (common.Case, error) {
 	var mu sync.Mutex
 	lk := map[string]int{}
 	ul := map[string]int{}
+	var pend []pending
 	var wg sync.WaitGroup
 	start := make(chan struct{})
 	for g := 0; g < in.Lookers; g++ {
@@ -432,16 +482,14 @@ func runConc(f *fixture, in input) (common.Case, error) {
 			defer wg.Done()
 			debug.SetPanicOnFault(true)
 			rng := rand.New(rand.NewSource(in.Seed*1000 + int64(g)))
-			local := map[string]int{}
+			var local []pending
 			<-start
 			for i := 0; i < in.LookupsEach; i++ {
-				local[f.lookup(r, rng.Intn(nMethods), rng.Intn(1000), false)]++
+				local = append(local, f.callLazy(r, rng.Intn(nMethods), rng.Intn(1000)))
 				pause(rng, in.Pause)
 			}
 			mu.Lock()
-			for k, v := range local {
-				lk[k] += v
-			}
+			pend = append(pend, local...)
 			mu.Unlock()
 		}(g)
 	}
@@ -490,8 +538,12 @@ func runConc(f *fixture, in input) (common.Case, error) {
 	}
 	loaded, _ := indexheader.VerifC16Loaded(r)
 	cs := readCounters(reg)
-	// final clean-up (not part of the observation)
+	// unload (not part of the observation), and only now read the answers
 	_ = indexheader.VerifC16UnloadIfIdleSince(r, 0)
+	debug.SetPanicOnFault(true)
+	for _, p := range pend {
+		lk[f.classify(p, false)]++
+	}
 
 	total := uint64(in.Lookers * in.LookupsEach)
 	n := func(m map[string]int, k string) string { return common.N(uint64(m[k])) }
@@ -515,7 +567,7 @@ func runConc(f *fixture, in input) (common.Case, error) {
 	c.Nontrivial = cs.loads >= 2 && cs.unloads >= 1
 	switch {
 	case lk["KPanic"] > 0:
-		c.GoPred = fmt.Sprintf("%d concurrent lookup(s) panicked (nil or unmapped index-header)", lk["KPanic"])
+		c.GoPred = fmt.Sprintf("%d concurrent lookup(s) panicked or returned an answer that faults once the header is unloaded (nil or unmapped index-header)", lk["KPanic"])
 		c.Sig = "conc-lookup-panic"
 	case lk["KDiff"] > 0:
 		c.GoPred = fmt.Sprintf("%d concurrent lookup(s) answered differently from the always-loaded reader", lk["KDiff"])
